@@ -325,8 +325,8 @@ func runC13(rc *runCtx) error {
 						obs := c13Call(key, servers, k)
 						base[k] = obs
 						hist["key_"+kkind]++
-						if k != n+3 && ki != 0 {
-							continue // the full order (k = n+3) is judged for every key, the truncations for the first key of a set
+						if k != n+3 && k != 1 && ki != 0 {
+							continue // the full order (k = n+3) and the owner (k = 1, what every call site asks for) are judged for every key, the other truncations for the first key of a set
 						}
 						f := fRv.pick()
 						f.cf.Add(fmt.Sprintf("CRv %s %s %d %s", f.b(key), f.l(servers), k, f.l(obs)))
@@ -335,6 +335,18 @@ func runC13(rc *runCtx) error {
 					}
 					if n == 4 && ki == 0 && variant == 0 {
 						rc.addSample(map[string]any{"kind": "rv", "key": key, "servers": servers, "topK": n + 3, "observed": base[n+3]})
+					}
+					// the owner (topK = 1) on the reversed list: every routing call site asks for exactly this
+					if n > 1 {
+						rev1 := make([]string, n)
+						for i := range servers {
+							rev1[n-1-i] = servers[i]
+						}
+						obsR := c13Call(key, rev1, 1)
+						f := fPerm.pick()
+						f.cf.Add(fmt.Sprintf("CPerm %s %s %s %d %s %s", f.b(key), f.ls(servers), f.l(rev1), 1, f.ls(base[1]), f.l(obsR)))
+						note("perm", fmt.Sprint(key, "|", servers, "|rev|", 1), true)
+						hist[fmt.Sprintf("perm_n%02d", n)]++
 					}
 					// permutations
 					// quick tier: the third key of a set (empty / long / raw / concat) gets a lighter treatment
@@ -425,6 +437,34 @@ func runC13(rc *runCtx) error {
 						hist[fmt.Sprintf("add_n%02d", n)]++
 					}
 				}
+			}
+		}
+		// the owner stream: what the call sites ask for (topK = 1), on small server sets where a wrong
+		// selection among the scores has a visible share of the keys; listed and reversed order
+		ownerKeys := 40
+		if rc.thorough() {
+			ownerKeys = 400
+		}
+		for n := 2; n <= 6; n++ {
+			servers := c13ServerSet(r, n, false)
+			rev1 := make([]string, n)
+			for i := range servers {
+				rev1[n-1-i] = servers[i]
+			}
+			for ki := 0; ki < ownerKeys; ki++ {
+				key := c13UserId(r)
+				if ki%2 == 1 {
+					key = c13UUID(r)
+				}
+				obs := c13Call(key, servers, 1)
+				obsR := c13Call(key, rev1, 1)
+				f := fRv.pick()
+				f.cf.Add(fmt.Sprintf("CRv %s %s %d %s", f.b(key), f.l(servers), 1, f.l(obs)))
+				note("rv", fmt.Sprint(key, "|", servers, "|", 1), true)
+				f = fPerm.pick()
+				f.cf.Add(fmt.Sprintf("CPerm %s %s %s %d %s %s", f.b(key), f.ls(servers), f.l(rev1), 1, f.ls(obs), f.l(obsR)))
+				note("perm", fmt.Sprint(key, "|", servers, "|rev|", 1), true)
+				hist["owner_stream"]++
 			}
 		}
 	}
